@@ -971,3 +971,19 @@ func (ex *explorer) noteAllocConcrete(bytes uint64) {
 		ex.Assert("alloc-budget", ok, "allocation exceeds the budget the frame consistently declares")
 	}
 }
+
+// provenExact asks the solver whether the 64-bit signed term always lies in [-2^53, 2^53],
+// i.e. whether its conversion to float64 is exact.
+func (ex *explorer) provenExact(t *smt.Term) bool {
+	if ex.template {
+		return false
+	}
+	c := ex.ctx
+	lim := uint64(1) << 53
+	in := c.And(c.Cmp(smt.OSle, c.BV(-lim, 64), t), c.Cmp(smt.OSle, t, c.BV(lim, 64)))
+	if in.IsTrue() {
+		return true
+	}
+	r, _ := ex.check(c.Not(in), false)
+	return r == smt.Unsat
+}
